@@ -349,6 +349,28 @@ class Tensor:
     def le(self, o):
         return self.cmp('<=', o)
 
+    def repeat_interleave(self, repeats, dim=None):
+        from .torchlib import _repeat_interleave
+        return _repeat_interleave(self, repeats, dim)
+
+    def tile(self, *dims):
+        if len(dims) == 1 and isinstance(dims[0], (tuple, list)):
+            dims = tuple(dims[0])
+        return self.repeat(*dims)
+
+    def outer(self, o):
+        return Tensor((self.shape[0], o.shape[0]), [s_mul(x, y) for x in self.els for y in o.els])
+
+    def sign(self):
+        return self.map(lambda a: s_ite(s_cmp('>', a, 0), 1.0, s_ite(s_cmp('<', a, 0), -1.0, 0.0)))
+
+    def square(self):
+        return self.mul(self)
+
+    def cumsum(self, dim=0):
+        from .torchlib import along_dim, _cumsum
+        return along_dim(self, dim, _cumsum)
+
     def isclose(self, o, rtol=1e-05, atol=1e-08, equal_nan=False):
         return self.zipw(o, lambda a, b: s_cmp('<=', s_abs(s_sub(a, b)), s_add(atol, s_mul(rtol, s_abs(b)))))
 
